@@ -53,4 +53,7 @@ theorem shrink_unique_exact (rf : Refuse) (hp : Heap) (a l m : Nat) (b : Block) 
 -- the pre-repair sizing (growth rule) on the F2 replay: 150, not 100
 example : Gen.amortizedGrowth 100 (100 - 100) = 150 := by decide
 
+/-- the two guards of `shrink_to` as in the source -/
+theorem guards : Gen.guardShrinkInline = "<=" ∧ Gen.guardShrinkNoop = ">=" := ⟨rfl, rfl⟩
+
 end LS.C13
